@@ -9,10 +9,13 @@ Ltac Zify.zify_post_hook ::= Z.div_mod_to_equations.
 (* ---------- induction over shapes ---------- *)
 Section ShapeInd.
   Variable P : shape -> Prop.
-  Hypothesis Hscalar : forall s, (match s with SVec _ | SClass _ | SBytes => False | _ => True end) -> P s.
+  Hypothesis Hscalar : forall s, (match s with SVec _ | SClass _ | SBytes | SMap _ _ | SArr _ _ | SVecBool => False | _ => True end) -> P s.
   Hypothesis Hbytes : P SBytes.
   Hypothesis Hvec : forall e, P e -> P (SVec e).
   Hypothesis Hclass : forall ms, Forall (fun m => P (snd m)) ms -> P (SClass ms).
+  Hypothesis Hmap : forall ks e, P e -> P (SMap ks e).
+  Hypothesis Harr : forall n e, P e -> P (SArr n e).
+  Hypothesis Hvb : P SVecBool.
   Fixpoint shape_ind' (s : shape) : P s :=
     match s with
     | SVec e => Hvec e (shape_ind' e)
@@ -22,12 +25,62 @@ Section ShapeInd.
                                  | m :: t => Forall_cons m (shape_ind' (snd m)) (go t)
                                  end) ms)
     | SBytes => Hbytes
+    | SMap ks e => Hmap ks e (shape_ind' e)
+    | SArr n e => Harr n e (shape_ind' e)
+    | SVecBool => Hvb
     | SNil => Hscalar SNil I | SBool => Hscalar SBool I | SInt k => Hscalar (SInt k) I
     | SF32 => Hscalar SF32 I | SF64 => Hscalar SF64 I | SStr => Hscalar SStr I
     end.
 End ShapeInd.
 
 Definition no_err (r : lres) : Prop := match r with LErr _ => False | _ => True end.
+
+Lemma lookup_some_in q l v : lookup q l = Some v -> exists k kk, In (k, v) l /\ keyden k = Some kk /\ key_eq kk q = true.
+Proof.
+  induction l as [|[k x] l IH]; intros H; [discriminate H|]. cbn [lookup] in H.
+  destruct (keyden k) as [k0|] eqn:Ek.
+  - destruct (key_eq k0 q) eqn:Eq.
+    + injection H as <-. exists k, k0. split; [left; reflexivity | split; assumption].
+    + destruct (IH H) as [k' [kk [Hin Hr]]]. exists k', kk. split; [right; exact Hin | exact Hr].
+  - destruct (IH H) as [k' [kk [Hin Hr]]]. exists k', kk. split; [right; exact Hin | exact Hr].
+Qed.
+
+
+(* what is asked of the document under a target of shape s: nothing for shapes without std::map (any value the
+   reference decoder accepts), supported and pairwise different keys (at every depth) otherwise *)
+Definition dok (s : shape) (v : mpv) : Prop := map_free s = true \/ doc_ok v = true.
+
+Lemma map_free_class ms : map_free (SClass ms) = forallb (fun m => map_free (snd m)) ms.
+Proof. induction ms as [|[name s'] ms IH]; [reflexivity|]. cbn [forallb snd]. rewrite <- IH. reflexivity. Qed.
+
+Lemma dok_vec e vs : dok (SVec e) (MArr vs) -> Forall (dok e) vs.
+Proof.
+  intros [H | H]; apply Forall_forall; intros v Hin.
+  - left. exact H.
+  - right. pose proof (doc_ok_arr _ H) as HF. rewrite Forall_forall in HF. exact (HF v Hin).
+Qed.
+
+Lemma dok_arr n e vs : dok (SArr n e) (MArr vs) -> Forall (dok e) vs.
+Proof. intros [H | H]; [apply (dok_vec e vs); left; exact H | apply (dok_vec e vs); right; exact H]. Qed.
+
+Lemma dok_class ms kvs : dok (SClass ms) (MMap kvs) ->
+  forall name s' x, In (name, s') ms -> lookup (KStr name) kvs = Some x -> dok s' x.
+Proof.
+  intros [H | H] name s' x Hin Hl.
+  - left. rewrite map_free_class, forallb_forall in H. exact (H (name, s') Hin).
+  - right. destruct (doc_ok_map _ H) as [_ [_ Hvals]]. destruct (lookup_some_in _ _ _ Hl) as [k [kk [Hk _]]].
+    apply Hvals. apply in_map_iff. exists (k, x). split; [reflexivity | exact Hk].
+Qed.
+
+Lemma dok_map ks e kvs : dok (SMap ks e) (MMap kvs) -> doc_ok (MMap kvs) = true.
+Proof. intros [H | H]; [discriminate H | exact H]. Qed.
+
+Lemma conv_key_refl o ks kk key : conv_key o ks kk = CKey key -> key_eq kk kk = true.
+Proof.
+  destruct ks, kk; cbn [conv_key]; intros H; try (destruct (o_mismatch o); discriminate H).
+  - cbn [key_eq]. apply bytes_eqb_eq. reflexivity.
+  - cbn [key_eq]. apply Z.eqb_refl.
+Qed.
 
 Section Programs.
   Variable narrow : N -> option N.
@@ -69,33 +122,72 @@ Section Programs.
       destruct (spec_reqs kvs (mk_reqs p2)) as [[t2 e2] c2]. rewrite app_assoc, andb_assoc. reflexivity.
   Qed.
 
-  (* what the specification answers to the program of one element / one member *)
+  Notation elem_prog := (elem_prog o).
+  Notation member_prog := (member_prog o).
+  Notation vact_prog := (vact_prog o).
+  Notation spec_vact := (spec_vact narrow widen o).
+  Notation spec_vacts := (spec_vacts narrow widen o).
+
+  (* what the specification answers to the program of one element / one member / one mapped value *)
   Definition elem_ok (s : shape) : Prop :=
-    forall v vs toks r, load_tr s v = (toks, r) -> no_err r ->
+    forall v vs toks r, dok s v -> load_tr s v = (toks, r) -> no_err r ->
     exists c, spec_areqs (v :: vs) (mk_areqs (elem_prog s v)) = ((toks, None, c), vs).
 
   Definition member_tr (s : shape) (ov : option mpv) : list tok * lres :=
     match ov with Some x => load_tr s x | None => (absent_toks s, LNot) end.
 
   Definition member_ok (s : shape) : Prop :=
-    forall q kvs toks r, member_tr s (lookup (key_of_q q) kvs) = (toks, r) -> no_err r ->
+    forall q kvs toks r, (forall x, lookup (key_of_q q) kvs = Some x -> dok s x) ->
+    member_tr s (lookup (key_of_q q) kvs) = (toks, r) -> no_err r ->
     exists c, spec_reqs kvs (mk_reqs (member_prog s q (lookup (key_of_q q) kvs))) = (toks, None, c).
 
+  (* the load from inside the VisitKeys callback, under a key q that finds x *)
+  Definition vact_ok (s : shape) : Prop :=
+    forall q kvs x toks r, lookup (key_of_q q) kvs = Some x -> dok s x ->
+    load_tr s x = (toks, r) -> no_err r ->
+    exists c, spec_vact kvs q (vact_prog s x) = (toks, None, c).
+
+  (* unfolding equations (cbn would expose the mutual fixpoint) *)
+  Lemma elem_prog_vec e v : elem_prog (SVec e) v = [AArr (arr_prog (elem_prog e) v)].
+  Proof. reflexivity. Qed.
+  Lemma member_prog_vec e q ov : member_prog (SVec e) q ov = [RArr q (match ov with Some v => arr_prog (elem_prog e) v | None => ANil end)].
+  Proof. reflexivity. Qed.
+  Lemma elem_prog_class ms v : elem_prog (SClass ms) v = [AObj (match v with MMap kvs => mk_reqs (members_prog member_prog kvs ms) | _ => RNil end)].
+  Proof. reflexivity. Qed.
+  Lemma member_prog_class ms q ov : member_prog (SClass ms) q ov =
+    [RObj q (match ov with Some (MMap kvs) => mk_reqs (members_prog member_prog kvs ms) | _ => RNil end)].
+  Proof. reflexivity. Qed.
+  Lemma elem_prog_map ks e v : elem_prog (SMap ks e) v =
+    [AObj (match v with MMap kvs => mk_reqs [REach (mk_vacts (map_acts o ks (vact_prog e) kvs))] | _ => RNil end)].
+  Proof. reflexivity. Qed.
+  Lemma elem_prog_arr n e v : elem_prog (SArr n e) v = [AArr (arr_prog (elem_prog e) v)].
+  Proof. reflexivity. Qed.
+  Lemma member_prog_arr n e q ov : member_prog (SArr n e) q ov = [RArr q (match ov with Some v => arr_prog (elem_prog e) v | None => ANil end)].
+  Proof. reflexivity. Qed.
+  Lemma elem_prog_vb v : elem_prog SVecBool v = [AArr (arr_prog bool_prog v)].
+  Proof. reflexivity. Qed.
+  Lemma member_prog_vb q ov : member_prog SVecBool q ov = [RArr q (match ov with Some v => arr_prog bool_prog v | None => ANil end)].
+  Proof. reflexivity. Qed.
+  Lemma member_prog_map ks e q ov : member_prog (SMap ks e) q ov =
+    [RObj q (match ov with Some (MMap kvs) => mk_reqs [REach (mk_vacts (map_acts o ks (vact_prog e) kvs))] | _ => RNil end)].
+  Proof. reflexivity. Qed.
+
   (* the loop of SerializeContainer *)
-  Lemma vec_loop e (load_e : mpv -> list tok * lres) (prog_e : mpv -> list areq) :
-    (forall v vs toks r, load_e v = (toks, r) -> no_err r ->
+  Lemma vec_loop e (load_e : mpv -> list tok * lres) (prog_e : mpv -> list areq) (D : mpv -> Prop) :
+    (forall v vs toks r, D v -> load_e v = (toks, r) -> no_err r ->
        exists c, spec_areqs (v :: vs) (mk_areqs (prog_e v)) = ((toks, None, c), vs)) ->
-    forall vs toks items, elems_tr e load_e vs = (toks, items, None) ->
+    forall vs toks items, Forall D vs -> elems_tr e load_e vs = (toks, items, None) ->
     exists c, spec_areqs vs (mk_areqs (vec_body prog_e vs)) = ((toks, None, c), []).
   Proof.
-    intros He. induction vs as [|v vs IH]; intros toks items H; cbn [elems_tr] in H.
+    intros He. induction vs as [|v vs IH]; intros toks items HD H; cbn [elems_tr] in H.
     - injection H as <- _. exists true. reflexivity.
-    - destruct (load_e v) as [t r] eqn:El.
+    - inversion HD as [|? ? HDv HDvs]; subst.
+      destruct (load_e v) as [t r] eqn:El.
       assert (Hr : no_err r /\ exists t' items', elems_tr e load_e vs = (t', items', None) /\ toks = KIsEnd false :: t ++ t').
       { destruct r; [| |discriminate H].
         all: destruct (elems_tr e load_e vs) as [[t' items'] err]; injection H as <- _ ->; split; [exact I | eauto]. }
       destruct Hr as [Hne [t' [items' [Hrest ->]]]].
-      destruct (He v vs t r El Hne) as [c1 E1]. destruct (IH t' items' Hrest) as [c2 E2].
+      destruct (He v vs t r HDv El Hne) as [c1 E1]. destruct (IH t' items' HDvs Hrest) as [c2 E2].
       unfold vec_body. cbn [flat_map]. rewrite <- !app_assoc. cbn [app mk_areqs]. rewrite spec_areqs_cons.
       cbn [MpScopeSpec.spec_areq].
       rewrite spec_areqs_app, E1. fold (vec_body prog_e vs). rewrite E2.
@@ -104,10 +196,11 @@ Section Programs.
 
   (* the loop over the members of a class *)
   Lemma members_loop kvs ms : Forall (fun m => member_ok (snd m)) ms ->
+    (forall name s' x, In (name, s') ms -> lookup (KStr name) kvs = Some x -> dok s' x) ->
     forall toks fields, members_tr load_tr kvs ms = (toks, fields, None) ->
     exists c, spec_reqs kvs (mk_reqs (members_prog member_prog kvs ms)) = (toks, None, c).
   Proof.
-    induction 1 as [|[name s'] ms Hm _ IH]; intros toks fields H; cbn [members_tr members_prog] in *.
+    induction 1 as [|[name s'] ms Hm _ IH]; intros HD toks fields H; cbn [members_tr members_prog] in *.
     - injection H as <- _. exists true. reflexivity.
     - cbn [snd] in Hm.
       destruct (match lookup (KStr name) kvs with Some x => load_tr s' x | None => (absent_toks s', LNot) end) as [t r] eqn:El.
@@ -115,7 +208,8 @@ Section Programs.
       { destruct r; [| |discriminate H].
         all: destruct (members_tr load_tr kvs ms) as [[t' f'] err]; injection H as <- _ ->; split; [exact I | eauto]. }
       destruct Hr as [Hne [t' [f' [Hrest ->]]]].
-      destruct (Hm (QStr name) kvs t r El Hne) as [c1 E1]. destruct (IH t' f' Hrest) as [c2 E2].
+      destruct (Hm (QStr name) kvs t r (fun x Hx => HD name s' x (or_introl eq_refl) Hx) El Hne) as [c1 E1].
+      destruct (IH (fun n s0 x Hin => HD n s0 x (or_intror Hin)) t' f' Hrest) as [c2 E2].
       rewrite spec_reqs_app. cbn [key_of_q] in E1. rewrite E1, E2. eexists. reflexivity.
   Qed.
 
@@ -127,48 +221,102 @@ Section Programs.
   Qed.
 
   (* a sequence container at an element position / as a member *)
-  Lemma vec_elem e load_e prog_e mk v vs toks r :
-    (forall v vs toks r, load_e v = (toks, r) -> no_err r ->
+  Lemma vec_elem e load_e prog_e mk (D : mpv -> Prop) v vs toks r :
+    (forall v vs toks r, D v -> load_e v = (toks, r) -> no_err r ->
        exists c, spec_areqs (v :: vs) (mk_areqs (prog_e v)) = ((toks, None, c), vs)) ->
+    (forall l, v = MArr l -> Forall D l) ->
     vec_tr o e load_e mk v = (toks, r) -> no_err r ->
     exists c, spec_areq (v :: vs) (AArr (arr_prog prog_e v)) = ((toks, None, c), vs).
   Proof.
-    intros He H Hn. rewrite spec_areq_arr. unfold vec_tr in H.
+    intros He HD H Hn. rewrite spec_areq_arr. unfold vec_tr in H.
     destruct v; try (destruct (no_container_spec _ _ _ H Hn) as [E _]; rewrite E; eexists; reflexivity).
     cbn [arr_prog]. destruct (elems_tr e load_e l) as [[t items] err] eqn:Et. destruct err as [err|].
     { injection H as _ <-. destruct Hn. }
-    injection H as <- _. destruct (vec_loop e load_e prog_e He l t items Et) as [c E]. rewrite E.
+    injection H as <- _. destruct (vec_loop e load_e prog_e D He l t items (HD l eq_refl) Et) as [c E]. rewrite E.
     eexists. reflexivity.
   Qed.
 
-  Lemma vec_member e load_e prog_e mk q kvs toks r :
-    (forall v vs toks r, load_e v = (toks, r) -> no_err r ->
+  Lemma vec_member e load_e prog_e mk (D : mpv -> Prop) q kvs toks r :
+    (forall v vs toks r, D v -> load_e v = (toks, r) -> no_err r ->
        exists c, spec_areqs (v :: vs) (mk_areqs (prog_e v)) = ((toks, None, c), vs)) ->
+    (forall l, lookup (key_of_q q) kvs = Some (MArr l) -> Forall D l) ->
     (match lookup (key_of_q q) kvs with Some x => vec_tr o e load_e mk x | None => ([KNone], LNot) end) = (toks, r) -> no_err r ->
     exists c, spec_req kvs (RArr q (match lookup (key_of_q q) kvs with Some v => arr_prog prog_e v | None => ANil end)) = (toks, None, c).
   Proof.
-    intros He H Hn. rewrite spec_req_arr. destruct (lookup (key_of_q q) kvs) as [v|].
+    intros He HD H Hn. rewrite spec_req_arr. destruct (lookup (key_of_q q) kvs) as [v|].
     2:{ injection H as <- _. eexists. reflexivity. }
     unfold vec_tr in H.
     destruct v; try (destruct (no_container_spec _ _ _ H Hn) as [E _]; rewrite E; eexists; reflexivity).
     cbn [arr_prog]. destruct (elems_tr e load_e l) as [[t items] err] eqn:Et. destruct err as [err|].
     { injection H as _ <-. destruct Hn. }
-    injection H as <- _. destruct (vec_loop e load_e prog_e He l t items Et) as [c E]. rewrite E.
+    injection H as <- _. destruct (vec_loop e load_e prog_e D He l t items (HD l eq_refl) Et) as [c E]. rewrite E.
     eexists. reflexivity.
   Qed.
 
-  Lemma u8_elem v vs toks r : scalar_tr narrow widen o (SInt IU8) (TgInt (mkIty false 8)) v = (toks, r) -> no_err r ->
+  Definition any (_ : mpv) : Prop := True.
+  Lemma any_all l : Forall any l.
+  Proof. apply Forall_forall. intros x _. exact I. Qed.
+
+  Lemma u8_elem v vs toks r : any v -> scalar_tr narrow widen o (SInt IU8) (TgInt (mkIty false 8)) v = (toks, r) -> no_err r ->
     exists c, spec_areqs (v :: vs) (mk_areqs (u8_prog v)) = ((toks, None, c), vs).
   Proof.
-    intros H Hn. unfold u8_prog. cbn [mk_areqs]. rewrite spec_areqs_cons. cbn [MpScopeSpec.spec_areq MpScopeSpec.spec_areqs].
+    intros _ H Hn. unfold u8_prog. cbn [mk_areqs]. rewrite spec_areqs_cons. cbn [MpScopeSpec.spec_areq MpScopeSpec.spec_areqs].
     unfold scalar_tr in H. destruct (typed_spec narrow widen o (TgInt (mkIty false 8)) v); injection H as <- <-;
       try (exfalso; exact Hn); cbn [of_tres]; eexists; reflexivity.
+  Qed.
+
+  Lemma bool_elem v vs toks r : any v -> scalar_tr narrow widen o SBool (TgInt (mkIty false 1)) v = (toks, r) -> no_err r ->
+    exists c, spec_areqs (v :: vs) (mk_areqs (bool_prog v)) = ((toks, None, c), vs).
+  Proof.
+    intros _ H Hn. unfold bool_prog. cbn [mk_areqs]. rewrite spec_areqs_cons. cbn [MpScopeSpec.spec_areq MpScopeSpec.spec_areqs].
+    unfold scalar_tr in H. destruct (typed_spec narrow widen o (TgInt (mkIty false 1)) v); injection H as <- <-;
+      try (exfalso; exact Hn); cbn [of_tres]; eexists; reflexivity.
+  Qed.
+
+  (* an error-free load into a fixed-size array consumes the answers a sequence container would *)
+  Lemma arr_as_vec n e v toks r : load_tr (SArr n e) v = (toks, r) -> no_err r -> vec_tr o e (load_tr e) TArr v = (toks, r).
+  Proof.
+    intros H Hn. cbn [MpLoadModel.load_tr] in H. unfold vec_tr. destruct v; try exact H.
+    destruct (elems_tr e (load_tr e) (firstn n l)) as [[t items] err] eqn:Et. destruct err as [err|].
+    { injection H as _ <-. destruct Hn. }
+    destruct (Nat.eqb (length l) n) eqn:En; [|injection H as _ <-; destruct Hn].
+    apply Nat.eqb_eq in En. subst n. rewrite firstn_all in Et. rewrite Et. exact H.
+  Qed.
+
+  (* std::vector<bool> consumes the answers a sequence container of bool would (the values differ) *)
+  Lemma bools_toks ld : forall vs prev t items err, bools_tr ld prev vs = (t, items, err) ->
+    exists items', elems_tr SBool ld vs = (t, items', err).
+  Proof.
+    induction vs as [|v vs IH]; intros prev t items err H; cbn [bools_tr elems_tr] in *.
+    - injection H as <- _ <-. eexists. reflexivity.
+    - destruct (ld v) as [t0 r0]. destruct r0 as [x| |e0].
+      + destruct (bools_tr ld (match x with TBool b => b | _ => prev end) vs) as [[t' i'] e'] eqn:Eb. injection H as <- _ <-.
+        destruct (IH _ _ _ _ Eb) as [i2 E2]. rewrite E2. eexists. reflexivity.
+      + destruct (bools_tr ld prev vs) as [[t' i'] e'] eqn:Eb. injection H as <- _ <-.
+        destruct (IH _ _ _ _ Eb) as [i2 E2]. rewrite E2. eexists. reflexivity.
+      + injection H as <- _ <-. eexists. reflexivity.
+  Qed.
+
+  Lemma vb_as_vec v toks r : load_tr SVecBool v = (toks, r) -> no_err r ->
+    exists r', vec_tr o SBool (scalar_tr narrow widen o SBool (TgInt (mkIty false 1))) TArr v = (toks, r') /\ no_err r'.
+  Proof.
+    intros H Hn. cbn [MpLoadModel.load_tr] in H. unfold vec_tr. destruct v; try (exists r; split; [exact H | exact Hn]).
+    destruct (bools_tr (scalar_tr narrow widen o SBool (TgInt (mkIty false 1))) false l) as [[t items] err] eqn:Et.
+    destruct (bools_toks _ _ _ _ _ _ Et) as [items' E']. rewrite E'. destruct err as [err|].
+    { injection H as _ <-. destruct Hn. }
+    injection H as <- _. eexists. split; [reflexivity | exact I].
   Qed.
 
   Lemma one_areq a vs r vs' : spec_areq vs a = (r, vs') ->
     spec_areqs vs (mk_areqs [a]) = (match r with (t, None, c) => (t ++ [], None, c && true) | f => f end, vs').
   Proof.
     intros H. cbn [mk_areqs]. rewrite spec_areqs_cons, H. destruct r as [[t e] c]. destruct e; reflexivity.
+  Qed.
+
+  Lemma one_req_inv kvs r toks c : spec_reqs kvs (mk_reqs [r]) = (toks, None, c) -> exists c', spec_req kvs r = (toks, None, c').
+  Proof.
+    cbn [mk_reqs]. rewrite spec_reqs_cons. destruct (spec_req kvs r) as [[t1 e1] c1]. destruct e1 as [e1|]; [discriminate|].
+    cbn [MpScopeSpec.spec_reqs]. rewrite app_nil_r. intros H. injection H as <- _. exists c1. reflexivity.
   Qed.
 
   Definition is_bin (v : mpv) : bool := match v with MBin _ => true | _ => false end.
@@ -186,7 +334,7 @@ Section Programs.
     exists c, spec_areqs (v :: vs) (mk_areqs [ABin 0; AArr (arr_prog u8_prog v)]) = ((KNone :: t, None, c), vs).
   Proof.
     intros Hb Ev Hn. cbn [mk_areqs]. rewrite spec_areqs_cons, (spec_areq_bin_other v vs 0 Hb).
-    destruct (vec_elem _ _ u8_prog _ _ vs t r0 u8_elem Ev Hn) as [c E].
+    destruct (vec_elem _ _ u8_prog _ any _ vs t r0 u8_elem (fun l _ => any_all l) Ev Hn) as [c E].
     rewrite spec_areqs_cons, E. cbn [MpScopeSpec.spec_areqs]. eexists. rewrite app_nil_r. reflexivity.
   Qed.
 
@@ -196,33 +344,112 @@ Section Programs.
     exists c, spec_reqs kvs (mk_reqs [RBin q 0; RArr q (arr_prog u8_prog v)]) = (KNone :: t, None, c).
   Proof.
     intros El Hb Ev Hn. cbn [mk_reqs]. rewrite spec_reqs_cons, spec_req_bin_other by (rewrite El; exact Hb).
-    pose proof (vec_member (SInt IU8) _ u8_prog (fun items => TBytes (map byte_of items)) q kvs t r0 u8_elem) as Hv. rewrite El in Hv.
+    pose proof (vec_member (SInt IU8) _ u8_prog (fun items => TBytes (map byte_of items)) any q kvs t r0 u8_elem (fun l _ => any_all l)) as Hv. rewrite El in Hv.
     destruct (Hv Ev Hn) as [c E]. rewrite spec_reqs_cons, E. cbn [MpScopeSpec.spec_reqs]. eexists. rewrite app_nil_r. reflexivity.
   Qed.
 
-  Theorem progs_ok : forall s, elem_ok s /\ member_ok s.
+  Lemma binarr_nonbin q kvs x n body : lookup (key_of_q q) kvs = Some x -> is_bin x = false ->
+    spec_vact kvs q (VBinArr n body) = match spec_req kvs (RArr q body) with (t2, e2, c2) => (KNone :: t2, e2, c2) end.
+  Proof. intros Hl Hb. rewrite spec_vact_binarr, spec_req_arr, Hl. destruct x; try discriminate Hb; reflexivity. Qed.
+
+  (* the keyed load from inside the callback is the keyed load of a member whose key finds the value *)
+  Lemma vact_of_member s : member_ok s -> vact_ok s.
   Proof.
+    intros Hm q kvs x toks r Hl HD H Hn. specialize (Hm q kvs toks r). unfold member_tr in Hm. rewrite Hl in Hm.
+    assert (HD' : forall y, Some x = Some y -> dok s y) by (intros y Hy; injection Hy as <-; exact HD).
+    destruct (Hm HD' H Hn) as [c E]. clear Hm HD'.
+    destruct s; cbn [MpLoadModel.member_prog MpLoadModel.vact_prog target_of] in *;
+      try (apply one_req_inv in E; destruct E as [c' E]; exists c'; exact E).
+    (* byte container *)
+    destruct (is_bin x) eqn:Hb.
+    - destruct x; try discriminate Hb. apply one_req_inv in E. destruct E as [c' E]. exists c'. exact E.
+    - assert (E' : spec_reqs kvs (mk_reqs [RBin q 0; RArr q (arr_prog u8_prog x)]) = (toks, None, c))
+        by (destruct x; try discriminate Hb; exact E).
+      assert (G : vact_prog SBytes x = VBinArr 0 (arr_prog u8_prog x)) by (destruct x; try discriminate Hb; reflexivity).
+      cbn [MpLoadModel.vact_prog]. change (match x with MBin bs => VBin (length bs) | _ => VBinArr 0 (arr_prog u8_prog x) end) with (vact_prog SBytes x).
+      rewrite G. clear E G.
+      cbn [mk_reqs] in E'. rewrite spec_reqs_cons, spec_req_bin_other in E' by (rewrite Hl; exact Hb).
+      rewrite spec_reqs_cons in E'. rewrite (binarr_nonbin q kvs x 0 _ Hl Hb).
+      destruct (spec_req kvs (RArr q (arr_prog u8_prog x))) as [[t2 e2] c2].
+      destruct e2 as [e2|]; [discriminate E'|]. cbn [MpScopeSpec.spec_reqs app] in E'. rewrite app_nil_r in E'.
+      injection E' as <- _. eexists. reflexivity.
+  Qed.
+
+  (* the loop of SerializeMapImpl over the members of the document *)
+  Lemma entries_loop ks e kvs : vact_ok e -> doc_ok (MMap kvs) = true ->
+    forall kvs2 kvs1, kvs = kvs1 ++ kvs2 ->
+    forall toks es, entries_tr o ks e (load_tr e) kvs2 = (toks, es, None) ->
+    exists c, spec_vacts kvs kvs2 (mk_vacts (map_acts o ks (vact_prog e) kvs2)) = (toks, None, c).
+  Proof.
+    intros He Hok. destruct (doc_ok_map _ Hok) as [Hsup [Hdist Hvals]].
+    induction kvs2 as [|[k x] kvs2 IH]; intros kvs1 E toks es H.
+    - cbn [entries_tr] in H. injection H as <- _. exists true. reflexivity.
+    - cbn [entries_tr] in H. cbn [map_acts mk_vacts]. rewrite spec_vacts_cons. unfold map_act. cbn [fst snd].
+      assert (E' : kvs = (kvs1 ++ [(k, x)]) ++ kvs2) by (rewrite <- app_assoc; exact E).
+      destruct (keyden k) as [kk|] eqn:Ek; [|discriminate H].
+      destruct (conv_key o ks kk) as [key| |err] eqn:Ec; [| |discriminate H].
+      + destruct (load_tr e x) as [t r] eqn:El.
+        assert (Hr : no_err r /\ exists t' es', entries_tr o ks e (load_tr e) kvs2 = (t', es', None) /\ toks = t ++ t').
+        { destruct r; [| |discriminate H].
+          all: destruct (entries_tr o ks e (load_tr e) kvs2) as [[t' es'] err]; injection H as <- _ ->; split; [exact I | eauto]. }
+        destruct Hr as [Hne [t' [es' [Hrest ->]]]].
+        assert (Hl : lookup (key_of_q (qkey_of_key kk)) kvs = Some x).
+        { assert (Hm : kmatch (qkey_of_key kk) (k, x) = true)
+            by (unfold kmatch; cbn [fst]; rewrite Ek, key_of_qkey_of_key; exact (conv_key_refl o ks kk key Ec)).
+          rewrite E in Hdist. destruct (match_unique _ _ _ _ _ Hdist Hm) as [Hno _].
+          rewrite E, (lookup_skip _ _ _ Hno). apply lookup_hit. exact Hm. }
+        assert (HDx : dok e x).
+        { right. apply Hvals. rewrite E, map_app. apply in_or_app. right. left. reflexivity. }
+        destruct (He (qkey_of_key kk) kvs x t r Hl HDx El Hne) as [c1 E1]. rewrite E1.
+        destruct (IH (kvs1 ++ [(k, x)]) E' t' es' Hrest) as [c2 E2]. rewrite E2. eexists. reflexivity.
+      + cbn [MpScopeSpec.spec_vact]. destruct (IH (kvs1 ++ [(k, x)]) E' toks es H) as [c2 E2]. rewrite E2. eexists. reflexivity.
+  Qed.
+
+  Lemma spec_req_each kvs acts : spec_req kvs (REach acts) = spec_vacts kvs kvs acts.
+  Proof. reflexivity. Qed.
+
+  (* std::map at an element position / as a member / as a mapped value: the body of the object scope *)
+  Lemma map_body ks e : vact_ok e -> forall v toks r, dok (SMap ks e) v -> load_tr (SMap ks e) v = (toks, r) -> no_err r ->
+    exists c, (match v with
+               | MMap kvs' => child (spec_reqs kvs' (match v with MMap kvs => mk_reqs [REach (mk_vacts (map_acts o ks (vact_prog e) kvs))] | _ => RNil end)) true
+               | _ => not_container o v
+               end) = (toks, None, c).
+  Proof.
+    intros He v toks r HD H Hn. cbn [MpLoadModel.load_tr] in H.
+    destruct v; try (destruct (no_container_spec _ _ _ H Hn) as [E _]; rewrite E; eexists; reflexivity).
+    destruct (entries_tr o ks e (load_tr e) l) as [[t es] err] eqn:Et. destruct err as [err|].
+    { injection H as _ <-. destruct Hn. }
+    injection H as <- _.
+    destruct (entries_loop ks e l He (dok_map _ _ _ HD) l [] eq_refl t es Et) as [c E].
+    cbn [mk_reqs]. rewrite spec_reqs_cons, spec_req_each, E. cbn [MpScopeSpec.spec_reqs child]. eexists. rewrite app_nil_r. reflexivity.
+  Qed.
+
+  Theorem progs_ok : forall s, elem_ok s /\ member_ok s /\ vact_ok s.
+  Proof.
+    assert (Hthird : forall s, elem_ok s /\ member_ok s -> elem_ok s /\ member_ok s /\ vact_ok s)
+      by (intros s [H1 H2]; split; [exact H1 | split; [exact H2 | exact (vact_of_member s H2)]]).
     apply shape_ind'.
     - (* one typed read *)
-      intros s Hs. assert (Ht : exists t, target_of s = Some t /\ forall v, load_tr s v = scalar_tr narrow widen o s t v
+      intros s Hs. apply Hthird.
+      assert (Ht : exists t, target_of s = Some t /\ forall v, load_tr s v = scalar_tr narrow widen o s t v
                                      /\ elem_prog s v = [AGet t] /\ forall q ov, member_prog s q ov = [RGet q t] /\ absent_toks s = [KFalse])
         by (destruct s; try destruct Hs; eexists; (split; [reflexivity|]); intros v; repeat split).
       destruct Ht as [t [Ht Hall]]. split.
-      + intros v vs toks r H Hn. destruct (Hall v) as [Hl [Hp _]]. rewrite Hl in H. rewrite Hp.
+      + intros v vs toks r _ H Hn. destruct (Hall v) as [Hl [Hp _]]. rewrite Hl in H. rewrite Hp.
         cbn [mk_areqs]. rewrite spec_areqs_cons. cbn [MpScopeSpec.spec_areq MpScopeSpec.spec_areqs].
         unfold scalar_tr in H. destruct (typed_spec narrow widen o t v); injection H as <- <-;
           try (exfalso; exact Hn); cbn [of_tres]; eexists; reflexivity.
-      + intros q kvs toks r H Hn. destruct (Hall MNil) as [_ [_ Hm]]. destruct (Hm q (lookup (key_of_q q) kvs)) as [Hp Ha].
+      + intros q kvs toks r _ H Hn. destruct (Hall MNil) as [_ [_ Hm]]. destruct (Hm q (lookup (key_of_q q) kvs)) as [Hp Ha].
         rewrite Hp. cbn [mk_reqs]. rewrite spec_reqs_cons. cbn [MpScopeSpec.spec_req MpScopeSpec.spec_reqs].
         unfold member_tr in H. destruct (lookup (key_of_q q) kvs) as [v|].
         * destruct (Hall v) as [Hl _]. rewrite Hl in H. unfold scalar_tr in H.
           destruct (typed_spec narrow widen o t v); injection H as <- <-; try (exfalso; exact Hn); cbn [of_tres]; eexists; reflexivity.
         * rewrite Ha in H. injection H as <- _. eexists. reflexivity.
     - (* byte container *)
-      split.
-      + intros v vs toks r H Hn. cbn [MpLoadModel.load_tr] in H.
+      apply Hthird. split.
+      + intros v vs toks r _ H Hn. cbn [MpLoadModel.load_tr] in H.
         destruct (is_bin v) eqn:Hb.
-        * destruct v; try discriminate Hb. injection H as <- _. cbn [elem_prog mk_areqs]. rewrite spec_areqs_cons.
+        * destruct v; try discriminate Hb. injection H as <- _. cbn [MpLoadModel.elem_prog mk_areqs]. rewrite spec_areqs_cons.
           cbn [MpScopeSpec.spec_areq MpScopeSpec.spec_areqs].
           unfold bytes_child. rewrite Nat.leb_refl, firstn_all. eexists. rewrite app_nil_r. reflexivity.
         * assert (Hp : elem_prog SBytes v = [ABin 0; AArr (arr_prog u8_prog v)]) by (destruct v; try discriminate Hb; reflexivity).
@@ -232,14 +459,14 @@ Section Programs.
               match type of H with (let (t, r) := ?X in _) = _ => destruct X as [t r0] eqn:Ev end;
               injection H as <- <-; eexists _, _; (split; [reflexivity | split; reflexivity]). }
           destruct Hl as [t [r0 [Ev [-> ->]]]]. rewrite Hp. exact (bytes_fallback_elem v vs t r0 Hb Ev Hn).
-      + intros q kvs toks r H Hn. unfold member_tr in H.
+      + intros q kvs toks r _ H Hn. unfold member_tr in H.
         destruct (lookup (key_of_q q) kvs) as [v|] eqn:El.
-        2:{ injection H as <- _. cbn [member_prog absent_toks mk_reqs]. rewrite !spec_reqs_cons.
+        2:{ injection H as <- _. cbn [MpLoadModel.member_prog absent_toks mk_reqs]. rewrite !spec_reqs_cons.
             rewrite spec_req_bin_other by (rewrite El; reflexivity).
             rewrite spec_req_arr, El. cbn [MpScopeSpec.spec_reqs]. eexists. reflexivity. }
         cbn [MpLoadModel.load_tr] in H.
         destruct (is_bin v) eqn:Hb.
-        * destruct v; try discriminate Hb. injection H as <- _. cbn [member_prog mk_reqs]. rewrite spec_reqs_cons.
+        * destruct v; try discriminate Hb. injection H as <- _. cbn [MpLoadModel.member_prog mk_reqs]. rewrite spec_reqs_cons.
           cbn [MpScopeSpec.spec_req MpScopeSpec.spec_reqs]. rewrite El.
           unfold bytes_child. rewrite Nat.leb_refl, firstn_all. eexists. rewrite app_nil_r. reflexivity.
         * assert (Hp : member_prog SBytes q (Some v) = [RBin q 0; RArr q (arr_prog u8_prog v)]) by (destruct v; try discriminate Hb; reflexivity).
@@ -250,34 +477,64 @@ Section Programs.
               injection H as <- <-; eexists _, _; (split; [reflexivity | split; reflexivity]). }
           destruct Hl as [t [r0 [Ev [-> ->]]]]. rewrite Hp. exact (bytes_fallback_member q kvs v t r0 El Hb Ev Hn).
     - (* sequence container *)
-      intros e [IHe _]. split.
-      + intros v vs toks r H Hn. cbn [MpLoadModel.load_tr elem_prog] in *.
-        destruct (vec_elem e _ (elem_prog e) _ v vs toks r IHe H Hn) as [c E].
+      intros e [IHe _]. apply Hthird. split.
+      + intros v vs toks r HD H Hn. rewrite elem_prog_vec. cbn [MpLoadModel.load_tr] in H.
+        destruct (vec_elem e _ (elem_prog e) _ (dok e) v vs toks r IHe (fun l El => dok_vec e l (eq_ind _ (dok (SVec e)) HD _ El)) H Hn) as [c E].
         rewrite (one_areq _ _ _ _ E). eexists. rewrite app_nil_r. reflexivity.
-      + intros q kvs toks r H Hn. unfold member_tr in H. cbn [member_prog MpLoadModel.load_tr absent_toks] in *.
-        destruct (vec_member e _ (elem_prog e) TArr q kvs toks r IHe) as [c E]; [|exact Hn|].
+      + intros q kvs toks r HD H Hn. unfold member_tr in H. rewrite member_prog_vec. cbn [MpLoadModel.load_tr absent_toks] in H.
+        destruct (vec_member e _ (elem_prog e) TArr (dok e) q kvs toks r IHe (fun l El => dok_vec e l (HD _ El))) as [c E]; [|exact Hn|].
         { destruct (lookup (key_of_q q) kvs); exact H. }
         cbn [mk_reqs]. rewrite spec_reqs_cons, E. cbn [MpScopeSpec.spec_reqs]. eexists. rewrite app_nil_r. reflexivity.
     - (* class *)
-      intros ms Hms.
-      assert (Hm : Forall (fun m => member_ok (snd m)) ms) by (eapply Forall_impl; [|exact Hms]; intros m [_ Hmm]; exact Hmm).
-      assert (Hbody : forall v toks r, load_tr (SClass ms) v = (toks, r) -> no_err r ->
+      intros ms Hms. apply Hthird.
+      assert (Hm : Forall (fun m => member_ok (snd m)) ms) by (eapply Forall_impl; [|exact Hms]; intros m [_ [Hmm _]]; exact Hmm).
+      assert (Hbody : forall v toks r, dok (SClass ms) v -> load_tr (SClass ms) v = (toks, r) -> no_err r ->
                 exists c, (match v with
                            | MMap kvs' => child (spec_reqs kvs' (match v with MMap kvs => mk_reqs (members_prog member_prog kvs ms) | _ => RNil end)) true
                            | _ => not_container o v
                            end) = (toks, None, c)).
-      { intros v toks r H Hn. cbn [MpLoadModel.load_tr] in H.
+      { intros v toks r HD H Hn. cbn [MpLoadModel.load_tr] in H.
         destruct v; try (destruct (no_container_spec _ _ _ H Hn) as [E _]; rewrite E; eexists; reflexivity).
         destruct (members_tr load_tr l ms) as [[t fields] err] eqn:Et. destruct err as [err|].
         { injection H as _ <-. destruct Hn. }
-        injection H as <- _. destruct (members_loop l ms Hm t fields Et) as [c E]. rewrite E. eexists. reflexivity. }
+        injection H as <- _. destruct (members_loop l ms Hm (dok_class ms l HD) t fields Et) as [c E]. rewrite E. eexists. reflexivity. }
       split.
-      + intros v vs toks r H Hn. cbn [elem_prog mk_areqs]. rewrite spec_areqs_cons, spec_areq_obj.
-        destruct (Hbody v toks r H Hn) as [c E]. destruct v; rewrite E; cbn [MpScopeSpec.spec_areqs]; eexists; rewrite app_nil_r; reflexivity.
-      + intros q kvs toks r H Hn. unfold member_tr in H. cbn [member_prog mk_reqs]. rewrite spec_reqs_cons, spec_req_obj.
+      + intros v vs toks r HD H Hn. rewrite ?elem_prog_class, ?elem_prog_map. cbn [mk_areqs]. rewrite spec_areqs_cons, spec_areq_obj.
+        destruct (Hbody v toks r HD H Hn) as [c E]. cbn [mk_reqs] in E |- *. destruct v; rewrite E; cbn [MpScopeSpec.spec_areqs]; eexists; rewrite app_nil_r; reflexivity.
+      + intros q kvs toks r HD H Hn. unfold member_tr in H. rewrite ?member_prog_class, ?member_prog_map. cbn [mk_reqs]. rewrite spec_reqs_cons, spec_req_obj.
         destruct (lookup (key_of_q q) kvs) as [v|].
-        * destruct (Hbody v toks r H Hn) as [c E]. destruct v; rewrite E; cbn [MpScopeSpec.spec_reqs]; eexists; rewrite app_nil_r; reflexivity.
+        * destruct (Hbody v toks r (HD v eq_refl) H Hn) as [c E]. cbn [mk_reqs] in E |- *. destruct v; rewrite E; cbn [MpScopeSpec.spec_reqs]; eexists; rewrite app_nil_r; reflexivity.
         * injection H as <- _. cbn [MpScopeSpec.spec_reqs absent_toks]. eexists. reflexivity.
+    - (* std::map *)
+      intros ks e [_ [_ IHv]]. apply Hthird. pose proof (map_body ks e IHv) as Hbody. split.
+      + intros v vs toks r HD H Hn. rewrite ?elem_prog_class, ?elem_prog_map. cbn [mk_areqs]. rewrite spec_areqs_cons, spec_areq_obj.
+        destruct (Hbody v toks r HD H Hn) as [c E]. cbn [mk_reqs] in E |- *. destruct v; rewrite E; cbn [MpScopeSpec.spec_areqs]; eexists; rewrite app_nil_r; reflexivity.
+      + intros q kvs toks r HD H Hn. unfold member_tr in H. rewrite ?member_prog_class, ?member_prog_map. cbn [mk_reqs]. rewrite spec_reqs_cons, spec_req_obj.
+        destruct (lookup (key_of_q q) kvs) as [v|].
+        * destruct (Hbody v toks r (HD v eq_refl) H Hn) as [c E]. cbn [mk_reqs] in E |- *. destruct v; rewrite E; cbn [MpScopeSpec.spec_reqs]; eexists; rewrite app_nil_r; reflexivity.
+        * injection H as <- _. cbn [MpScopeSpec.spec_reqs absent_toks]. eexists. reflexivity.
+    - (* fixed-size array *)
+      intros n e [IHe _]. apply Hthird. split.
+      + intros v vs toks r HD H Hn. rewrite elem_prog_arr. apply arr_as_vec in H; [|exact Hn].
+        destruct (vec_elem e _ (elem_prog e) _ (dok e) v vs toks r IHe (fun l El => dok_arr n e l (eq_ind _ (dok (SArr n e)) HD _ El)) H Hn) as [c E].
+        rewrite (one_areq _ _ _ _ E). eexists. rewrite app_nil_r. reflexivity.
+      + intros q kvs toks r HD H Hn. unfold member_tr in H. rewrite member_prog_arr.
+        destruct (vec_member e _ (elem_prog e) TArr (dok e) q kvs toks r IHe (fun l El => dok_arr n e l (HD _ El))) as [c E]; [|exact Hn|].
+        { destruct (lookup (key_of_q q) kvs); [exact (arr_as_vec n e _ toks r H Hn) | exact H]. }
+        cbn [mk_reqs]. rewrite spec_reqs_cons, E. cbn [MpScopeSpec.spec_reqs]. eexists. rewrite app_nil_r. reflexivity.
+    - (* std::vector<bool> *)
+      apply Hthird. split.
+      + intros v vs toks r _ H Hn. rewrite elem_prog_vb. destruct (vb_as_vec v toks r H Hn) as [r' [H' Hn']].
+        destruct (vec_elem SBool _ bool_prog _ any v vs toks r' bool_elem (fun l _ => any_all l) H' Hn') as [c E].
+        rewrite (one_areq _ _ _ _ E). eexists. rewrite app_nil_r. reflexivity.
+      + intros q kvs toks r _ H Hn. unfold member_tr in H. rewrite member_prog_vb.
+        assert (Hv : exists r', (match lookup (key_of_q q) kvs with
+                                 | Some x => vec_tr o SBool (scalar_tr narrow widen o SBool (TgInt (mkIty false 1))) TArr x
+                                 | None => ([KNone], LNot) end) = (toks, r') /\ no_err r').
+        { destruct (lookup (key_of_q q) kvs) as [x|]; [exact (vb_as_vec x toks r H Hn) | exists r; split; [exact H | exact Hn]]. }
+        destruct Hv as [r' [H' Hn']].
+        destruct (vec_member SBool _ bool_prog TArr any q kvs toks r' bool_elem (fun l _ => any_all l) H' Hn') as [c E].
+        cbn [mk_reqs]. rewrite spec_reqs_cons, E. cbn [MpScopeSpec.spec_reqs]. eexists. rewrite app_nil_r. reflexivity.
   Qed.
 End Programs.
 
@@ -294,9 +551,36 @@ Fixpoint class_shape (l : list (tv * tv)) (ms : list (list N * shape)) : bool :=
 
 Lemma has_shape_arr l e : has_shape (TArr l) (SVec e) = all_shape e l.
 Proof. induction l as [|x t IH]; [reflexivity|]. cbn [all_shape]. rewrite <- IH. reflexivity. Qed.
+Lemma has_shape_arrn l n e : has_shape (TArr l) (SArr n e) = Nat.eqb (length l) n && all_shape e l.
+Proof. cbn [has_shape]. f_equal. induction l as [|x t IH]; [reflexivity|]. cbn [all_shape]. rewrite <- IH. reflexivity. Qed.
+Fixpoint all_bool (l : list tv) : bool := match l with [] => true | TBool _ :: t => all_bool t | _ => false end.
+Lemma has_shape_vb l : has_shape (TArr l) SVecBool = all_bool l.
+Proof. induction l as [|x t IH]; [reflexivity|]. cbn [all_bool]. rewrite <- IH. reflexivity. Qed.
 Lemma has_shape_obj l : forall ms, has_shape (TObj l) (SClass ms) = class_shape l ms.
 Proof.
   induction l as [|[k x] t IH]; intros [|[name s'] ms']; reflexivity.
+Qed.
+
+Fixpoint map_shape (ks : kshape) (e : shape) (l : list (tv * tv)) : bool :=
+  match l with [] => true | (k, x) :: t => key_has k ks && has_shape x e && map_shape ks e t end.
+Lemma has_shape_map l ks e : has_shape (TObj l) (SMap ks e) = map_shape ks e l && pairs_sorted l.
+Proof.
+  cbn [has_shape]. f_equal. induction l as [|[k x] t IH]; [reflexivity|]. cbn [map_shape]. rewrite <- IH. reflexivity.
+Qed.
+
+Lemma map_of_sorted l : pairs_sorted l = true -> map_of l = l.
+Proof.
+  induction l as [|[k x] t IH]; intros H; [reflexivity|]. cbn [pairs_sorted] in H. apply andb_true_iff in H. destruct H as [H1 H2].
+  unfold map_of in *. cbn [fold_right fst snd]. rewrite (IH H2). destruct t as [|[k' x'] t']; [reflexivity|].
+  cbn [map_insert]. rewrite H1. reflexivity.
+Qed.
+
+Lemma conv_abs o k ks : key_has k ks = true -> wf_tv k -> exists kk, keyden (abs k) = Some kk /\ conv_key o ks kk = CKey k.
+Proof.
+  destruct k, ks; intros Hk Hw; try discriminate Hk.
+  - cbn [wf_tv] in Hw. assert (k = k0) by (destruct k, k0; try discriminate Hk; reflexivity). subst k0.
+    exists (KInt z). split; [reflexivity|]. cbn [conv_key]. rewrite Hw. reflexivity.
+  - exists (KStr s). split; reflexivity.
 Qed.
 
 Definition absp (kv : tv * tv) : mpv * mpv := (abs (fst kv), abs (snd kv)).
@@ -356,6 +640,32 @@ Section RoundTrip.
       destruct (IH ms' (pre ++ [(TStr s, x)]) Hl Hsl Hwl Hd Hdl) as [t Et]. rewrite Et. eexists. reflexivity.
   Qed.
 
+  Lemma rt_entries ks e : forall l, Forall (fun kv => rt (fst kv) /\ rt (snd kv)) l -> map_shape ks e l = true -> wf_pairs l ->
+    Forall (fun kv => doc_ok (snd kv) = true) (map absp l) ->
+    exists t, entries_tr o ks e (load_tr e) (map absp l) = (t, l, None).
+  Proof.
+    induction l as [|[k x] l IH]; intros HF Hs Hw Hd; cbn [map entries_tr].
+    - eexists. reflexivity.
+    - inversion HF as [|? ? [_ Hx] Hl]; subst. cbn [fst snd] in Hx.
+      cbn [map_shape] in Hs. apply andb_true_iff in Hs. destruct Hs as [Hs Hsl]. apply andb_true_iff in Hs. destruct Hs as [Hk Hsx].
+      destruct Hw as [Hwk [Hwx Hwl]]. cbn [map] in Hd. inversion Hd as [|? ? Hdx Hdl]; subst. unfold absp at 1 in Hdx. cbn [snd] in Hdx.
+      unfold absp at 1. cbn [fst snd]. destruct (conv_abs o k ks Hk Hwk) as [kk [Ek Ec]]. rewrite Ek, Ec.
+      destruct (Hx e Hsx Hwx Hdx) as [tx Ex]. rewrite Ex. destruct (IH Hl Hsl Hwl Hdl) as [t Et]. rewrite Et.
+      eexists. reflexivity.
+  Qed.
+
+  Lemma rt_bools : forall l prev, all_bool l = true ->
+    exists t, bools_tr (scalar_tr narrow widen o SBool (TgInt (mkIty false 1))) prev (map abs l) = (t, l, None).
+  Proof.
+    induction l as [|x l IH]; intros prev H; cbn [map bools_tr].
+    - eexists. reflexivity.
+    - destruct x; try discriminate H. cbn [all_bool] in H.
+      destruct (IH b H) as [t Et].
+      assert (Es : scalar_tr narrow widen o SBool (TgInt (mkIty false 1)) (abs (TBool b)) = ([KVal (VInt (if b then 1 else 0)%Z)], LOk (TBool b)))
+        by (destruct b; reflexivity).
+      rewrite Es, Et. eexists. reflexivity.
+  Qed.
+
   Theorem load_save_spec : forall v, rt v.
   Proof.
     apply tv_ind2; unfold rt.
@@ -368,56 +678,222 @@ Section RoundTrip.
     - intros b [] Hs _ _; try discriminate Hs. eexists. reflexivity.
     - intros b [] Hs _ _; try discriminate Hs. eexists. reflexivity.
     - intros b [] Hs _ _; try discriminate Hs. eexists. reflexivity.
-    - intros l HF [] Hs Hw Hd; try discriminate Hs. rewrite has_shape_arr in Hs. rewrite wf_arr in Hw.
-      apply doc_ok_arr in Hd. cbn [abs MpLoadModel.load_tr]. unfold vec_tr.
-      destruct (rt_elems e l HF Hs Hw Hd) as [t Et]. rewrite Et. eexists. reflexivity.
-    - intros kvs HF [] Hs Hw Hd; try discriminate Hs. rewrite has_shape_obj in Hs. rewrite wf_obj in Hw.
-      rewrite abs_obj in *. destruct (doc_ok_map _ Hd) as [_ [Hdist Hvals]].
-      cbn [MpLoadModel.load_tr].
-      assert (Hdv : Forall (fun kv => doc_ok (snd kv) = true) (map absp kvs)).
-      { apply Forall_forall. intros kv Hin. apply Hvals. apply in_map. exact Hin. }
-      destruct (rt_members kvs ms [] HF Hs Hw Hdist Hdv) as [t Et]. cbn [app] in Et. rewrite Et. eexists. reflexivity.
+    - intros l HF [] Hs Hw Hd; try discriminate Hs.
+      + rewrite has_shape_arr in Hs. rewrite wf_arr in Hw.
+        apply doc_ok_arr in Hd. cbn [abs MpLoadModel.load_tr]. unfold vec_tr.
+        destruct (rt_elems e l HF Hs Hw Hd) as [t Et]. rewrite Et. eexists. reflexivity.
+      + rewrite has_shape_arrn in Hs. apply andb_true_iff in Hs. destruct Hs as [Hlen Hs]. apply Nat.eqb_eq in Hlen. rewrite wf_arr in Hw.
+        apply doc_ok_arr in Hd. cbn [abs MpLoadModel.load_tr].
+        replace (firstn n (map abs l)) with (map abs l) by (rewrite <- Hlen, <- (map_length abs l), firstn_all; reflexivity).
+        destruct (rt_elems e l HF Hs Hw Hd) as [t Et]. rewrite Et, map_length, Hlen, Nat.eqb_refl. eexists. reflexivity.
+      + rewrite has_shape_vb in Hs. cbn [abs MpLoadModel.load_tr].
+        destruct (rt_bools l false Hs) as [t Et]. rewrite Et. eexists. reflexivity.
+    - intros kvs HF [] Hs Hw Hd; try discriminate Hs.
+      + rewrite has_shape_obj in Hs. rewrite wf_obj in Hw.
+        rewrite abs_obj in *. destruct (doc_ok_map _ Hd) as [_ [Hdist Hvals]].
+        cbn [MpLoadModel.load_tr].
+        assert (Hdv : Forall (fun kv => doc_ok (snd kv) = true) (map absp kvs)).
+        { apply Forall_forall. intros kv Hin. apply Hvals. apply in_map. exact Hin. }
+        destruct (rt_members kvs ms [] HF Hs Hw Hdist Hdv) as [t Et]. cbn [app] in Et. rewrite Et. eexists. reflexivity.
+      + rewrite has_shape_map in Hs. apply andb_true_iff in Hs. destruct Hs as [Hs Hsorted]. rewrite wf_obj in Hw.
+        rewrite abs_obj in *. destruct (doc_ok_map _ Hd) as [_ [_ Hvals]].
+        cbn [MpLoadModel.load_tr].
+        assert (Hdv : Forall (fun kv => doc_ok (snd kv) = true) (map absp kvs)).
+        { apply Forall_forall. intros kv Hin. apply Hvals. apply in_map. exact Hin. }
+        destruct (rt_entries ks e kvs HF Hs Hw Hdv) as [t Et]. rewrite Et, (map_of_sorted kvs Hsorted). eexists. reflexivity.
   Qed.
 End RoundTrip.
 
-(* ---------- transport to the scope model on the bytes (T_C03_mp_refines) ---------- *)
+(* ---------- programs of shapes without std::map never load from inside a VisitKeys callback ---------- *)
+Lemma each_free_areqs_app a : forall b, each_free_areqs (mk_areqs (a ++ b)) = each_free_areqs (mk_areqs a) && each_free_areqs (mk_areqs b).
+Proof. induction a as [|x a IH]; intros b; [reflexivity|]. cbn [app mk_areqs each_free_areqs]. rewrite IH, andb_assoc. reflexivity. Qed.
+Lemma each_free_reqs_app a : forall b, each_free_reqs (mk_reqs (a ++ b)) = each_free_reqs (mk_reqs a) && each_free_reqs (mk_reqs b).
+Proof. induction a as [|x a IH]; intros b; [reflexivity|]. cbn [app mk_reqs each_free_reqs]. rewrite IH, andb_assoc. reflexivity. Qed.
+
+Lemma vec_body_free prog_e : (forall v, each_free_areqs (mk_areqs (prog_e v)) = true) ->
+  forall vs, each_free_areqs (mk_areqs (vec_body prog_e vs)) = true.
+Proof.
+  intros H. induction vs as [|v vs IH]; [reflexivity|]. unfold vec_body in *. cbn [flat_map]. rewrite <- !app_assoc. cbn [app mk_areqs each_free_areqs each_free_areq andb].
+  rewrite each_free_areqs_app, H, IH. reflexivity.
+Qed.
+Lemma arr_prog_free prog_e v : (forall v, each_free_areqs (mk_areqs (prog_e v)) = true) -> each_free_areqs (arr_prog prog_e v) = true.
+Proof. intros H. destruct v; try reflexivity. apply vec_body_free. exact H. Qed.
+Lemma u8_prog_free v : each_free_areqs (mk_areqs (u8_prog v)) = true.
+Proof. reflexivity. Qed.
+
+Lemma members_prog_free o kvs ms :
+  Forall (fun m => forall q ov, each_free_reqs (mk_reqs (member_prog o (snd m) q ov)) = true) ms ->
+  each_free_reqs (mk_reqs (members_prog (member_prog o) kvs ms)) = true.
+Proof.
+  induction 1 as [|[name s'] ms Hm _ IH]; [reflexivity|]. cbn [members_prog snd] in *. rewrite each_free_reqs_app, Hm, IH. reflexivity.
+Qed.
+
+Theorem progs_each_free o : forall s, map_free s = true ->
+  (forall v, each_free_areqs (mk_areqs (elem_prog o s v)) = true) /\
+  (forall q ov, each_free_reqs (mk_reqs (member_prog o s q ov)) = true).
+Proof.
+  apply (shape_ind' (fun s => map_free s = true ->
+    (forall v, each_free_areqs (mk_areqs (elem_prog o s v)) = true) /\
+    (forall q ov, each_free_reqs (mk_reqs (member_prog o s q ov)) = true))).
+  - intros s Hs _. split; intros; destruct s; try destruct Hs; reflexivity.
+  - intros _. split.
+    + intros v. destruct v; try reflexivity;
+        cbn [MpLoadModel.elem_prog mk_areqs each_free_areqs each_free_areq andb]; rewrite (arr_prog_free u8_prog _ u8_prog_free); reflexivity.
+    + intros q ov. destruct ov as [v|]; [|reflexivity]. destruct v; try reflexivity;
+        cbn [MpLoadModel.member_prog mk_reqs each_free_reqs each_free_req andb]; rewrite (arr_prog_free u8_prog _ u8_prog_free); reflexivity.
+  - intros e IH Hf. cbn [map_free] in Hf. destruct (IH Hf) as [He _]. split.
+    + intros v. rewrite elem_prog_vec. cbn [mk_areqs each_free_areqs each_free_areq]. rewrite (arr_prog_free _ v He). reflexivity.
+    + intros q ov. rewrite member_prog_vec. cbn [mk_reqs each_free_reqs each_free_req]. destruct ov as [v|]; [|reflexivity].
+      rewrite (arr_prog_free _ v He). reflexivity.
+  - intros ms IH Hf. rewrite map_free_class, forallb_forall in Hf.
+    assert (Hm : Forall (fun m => forall q ov, each_free_reqs (mk_reqs (member_prog o (snd m) q ov)) = true) ms).
+    { rewrite Forall_forall in IH. apply Forall_forall. intros m Hin. exact (proj2 (IH m Hin (Hf m Hin))). }
+    split.
+    + intros v. rewrite elem_prog_class. cbn [mk_areqs each_free_areqs each_free_areq]. destruct v; try reflexivity.
+      rewrite (members_prog_free o l ms Hm). reflexivity.
+    + intros q ov. rewrite member_prog_class. cbn [mk_reqs each_free_reqs each_free_req]. destruct ov as [v|]; [|reflexivity].
+      destruct v; try reflexivity. rewrite (members_prog_free o l ms Hm). reflexivity.
+  - intros ks e _ Hf. discriminate Hf.
+  - intros n e IH Hf. cbn [map_free] in Hf. destruct (IH Hf) as [He _]. split.
+    + intros v. rewrite elem_prog_arr. cbn [mk_areqs each_free_areqs each_free_areq]. rewrite (arr_prog_free _ v He). reflexivity.
+    + intros q ov. rewrite member_prog_arr. cbn [mk_reqs each_free_reqs each_free_req]. destruct ov as [v|]; [|reflexivity].
+      rewrite (arr_prog_free _ v He). reflexivity.
+  - intros _. split.
+    + intros v. rewrite elem_prog_vb. cbn [mk_areqs each_free_areqs each_free_areq]. rewrite (arr_prog_free bool_prog v (fun _ => eq_refl)). reflexivity.
+    + intros q ov. rewrite member_prog_vb. cbn [mk_reqs each_free_reqs each_free_req]. destruct ov as [v|]; [|reflexivity].
+      rewrite (arr_prog_free bool_prog v (fun _ => eq_refl)). reflexivity.
+Qed.
+
+(* a value of a static shape has no NaN key: its map keys are strings and integers *)
+Lemma has_shape_keys_refl : forall v s, has_shape v s = true -> keys_refl (abs v) = true.
+Proof.
+  apply (tv_ind2 (fun v => forall s, has_shape v s = true -> keys_refl (abs v) = true)); try (intros; reflexivity).
+  - intros l HF s Hs.
+    assert (Hall : exists e, all_shape e l = true).
+    { destruct s; try discriminate Hs.
+      - exists s. rewrite has_shape_arr in Hs. exact Hs.
+      - exists s. rewrite has_shape_arrn in Hs. apply andb_true_iff in Hs. apply Hs.
+      - exists SBool. rewrite has_shape_vb in Hs. clear HF. induction l as [|x l IH]; [reflexivity|].
+        destruct x; try discriminate Hs. cbn [all_shape has_shape all_bool] in *. exact (IH Hs). }
+    destruct Hall as [e He]. clear Hs. cbn [abs keys_refl].
+    induction l as [|x l IH]; [reflexivity|]. inversion HF as [|? ? Hx Hl]; subst. cbn [all_shape] in He.
+    apply andb_true_iff in He. destruct He as [Hsx Hsl]. cbn [map forallb]. rewrite (Hx e Hsx), (IH Hl Hsl). reflexivity.
+  - intros kvs HF s Hs. rewrite abs_obj. cbn [keys_refl]. destruct s; try discriminate Hs.
+    + rewrite has_shape_obj in Hs. revert ms Hs. induction kvs as [|[k x] kvs IH]; intros ms Hs; [reflexivity|].
+      destruct ms as [|[name s'] ms']; [discriminate Hs|]. cbn [class_shape] in Hs.
+      apply andb_true_iff in Hs. destruct Hs as [Hs Hsl]. apply andb_true_iff in Hs. destruct Hs as [Hk Hsx].
+      inversion HF as [|? ? [_ Hx] Hl]; subst. cbn [fst snd] in Hx. cbn [map forallb]. unfold absp at 1. cbn [fst snd].
+      rewrite (Hx s' Hsx), (IH Hl ms' Hsl). destruct k; try discriminate Hk. cbn [abs keyden key_eq].
+      rewrite (proj2 (bytes_eqb_eq s s) eq_refl). reflexivity.
+    + rewrite has_shape_map in Hs. apply andb_true_iff in Hs. destruct Hs as [Hs _].
+      induction kvs as [|[k x] kvs IH]; [reflexivity|]. cbn [map_shape] in Hs.
+      apply andb_true_iff in Hs. destruct Hs as [Hs Hsl]. apply andb_true_iff in Hs. destruct Hs as [Hk Hsx].
+      inversion HF as [|? ? [_ Hx] Hl]; subst. cbn [fst snd] in Hx. cbn [map forallb]. unfold absp at 1. cbn [fst snd].
+      rewrite (Hx s Hsx), (IH Hl Hsl). destruct k, ks; try discriminate Hk; cbn [abs keyden key_eq].
+      * rewrite Z.eqb_refl. reflexivity.
+      * rewrite (proj2 (bytes_eqb_eq s0 s0) eq_refl). reflexivity.
+Qed.
+
+(* ---------- transport to the scope model on the bytes (T_C03_mp_refines_outside) ---------- *)
 Section Transport.
   Variable narrow : N -> option N.
   Variable widen : N -> N.
   Variable o : opts.
   Notation load_tr := (load_tr narrow widen o).
+  Notation class_prog := (class_prog o).
+  Notation map_prog := (map_prog o).
+  Notation vec_prog := (vec_prog o).
+  Notation elem_prog := (elem_prog o).
 
-  (* a class at the root: LoadObject opens the root object scope and runs value.Serialize(scope) *)
+  (* a class at the root: LoadObject opens the root object scope and runs value.Serialize(scope).
+     The document: any the reference decoder accepts with supported, pairwise different keys; if the class has a
+     std::map somewhere, moreover no NaN key (known finding M01 of C03) *)
   Theorem load_class_on_model data kvs rest ms toks r :
     bytes data -> decode data = Some (MMap kvs, rest) -> doc_ok (MMap kvs) = true ->
+    (map_free (SClass ms) = true \/ keys_refl (MMap kvs) = true) ->
     load_tr (SClass ms) (MMap kvs) = (toks, r) -> no_err r ->
     run_obj_root narrow widen o data (class_prog ms kvs) = Done toks rest false /\
     load_obj narrow widen o data (class_prog ms kvs) = MpScopeModel.LOk toks rest.
   Proof.
-    intros Hb Hd Hok H Hn. cbn [MpLoadModel.load_tr] in H.
+    intros Hb Hd Hok HG H Hn. cbn [MpLoadModel.load_tr] in H.
     destruct (members_tr load_tr kvs ms) as [[t fields] err] eqn:Et. destruct err as [err|].
     { injection H as _ <-. destruct Hn. }
     injection H as <- _.
     assert (Hm : Forall (fun m => member_ok narrow widen o (snd m)) ms)
       by (apply Forall_forall; intros m _; apply progs_ok).
-    destruct (members_loop narrow widen o kvs ms Hm t fields Et) as [c E].
-    pose proof (obj_root_refines narrow widen o data kvs rest (class_prog ms kvs) t c Hb Hd Hok E) as R.
+    destruct (members_loop narrow widen o kvs ms Hm (dok_class ms kvs (or_intror Hok)) t fields Et) as [c E].
+    assert (HG' : guard (each_free_reqs (class_prog ms kvs)) (MMap kvs)).
+    { destruct HG as [HG | HG]; [left | right; exact HG]. unfold MpLoadModel.class_prog. apply members_prog_free.
+      rewrite map_free_class, forallb_forall in HG. apply Forall_forall. intros m Hin. exact (proj2 (progs_each_free o (snd m) (HG m Hin))). }
+    pose proof (obj_root_refines narrow widen o data kvs rest (class_prog ms kvs) t c Hb Hd Hok HG' E) as R.
+    split; [exact R|]. unfold load_obj. rewrite R. reflexivity.
+  Qed.
+
+  (* a std::map at the root *)
+  Theorem load_map_on_model data kvs rest ks e toks r :
+    bytes data -> decode data = Some (MMap kvs, rest) -> doc_ok (MMap kvs) = true -> keys_refl (MMap kvs) = true ->
+    load_tr (SMap ks e) (MMap kvs) = (toks, r) -> no_err r ->
+    run_obj_root narrow widen o data (map_prog ks e kvs) = Done toks rest false /\
+    load_obj narrow widen o data (map_prog ks e kvs) = MpScopeModel.LOk toks rest.
+  Proof.
+    intros Hb Hd Hok Hrf H Hn. cbn [MpLoadModel.load_tr] in H.
+    destruct (entries_tr o ks e (load_tr e) kvs) as [[t es] err] eqn:Et. destruct err as [err|].
+    { injection H as _ <-. destruct Hn. }
+    injection H as <- _.
+    destruct (entries_loop narrow widen o ks e kvs (proj2 (proj2 (progs_ok narrow widen o e))) Hok kvs [] eq_refl t es Et) as [c E].
+    assert (E' : spec_reqs narrow widen o kvs (map_prog ks e kvs) = (t, None, c && true)).
+    { unfold MpLoadModel.map_prog. cbn [mk_reqs]. rewrite spec_reqs_cons, spec_req_each, E. cbn [MpScopeSpec.spec_reqs]. rewrite app_nil_r. reflexivity. }
+    pose proof (obj_root_refines narrow widen o data kvs rest (map_prog ks e kvs) t _ Hb Hd Hok (or_intror Hrf) E') as R.
     split; [exact R|]. unfold load_obj. rewrite R. reflexivity.
   Qed.
 
   (* a sequence container at the root *)
   Theorem load_vec_on_model data vs rest e toks r :
     bytes data -> decode data = Some (MArr vs, rest) -> doc_ok (MArr vs) = true ->
+    (map_free (SVec e) = true \/ keys_refl (MArr vs) = true) ->
     load_tr (SVec e) (MArr vs) = (toks, r) -> no_err r ->
     run_arr_root narrow widen o data (vec_prog e vs) = Done toks rest false /\
     load_arr narrow widen o data (vec_prog e vs) = MpScopeModel.LOk toks rest.
   Proof.
-    intros Hb Hd Hok H Hn. cbn [MpLoadModel.load_tr] in H. unfold vec_tr in H.
+    intros Hb Hd Hok HG H Hn. cbn [MpLoadModel.load_tr] in H. unfold vec_tr in H.
     destruct (elems_tr e (load_tr e) vs) as [[t items] err] eqn:Et. destruct err as [err|].
     { injection H as _ <-. destruct Hn. }
     injection H as <- _.
-    destruct (vec_loop narrow widen o e (load_tr e) (elem_prog e) (proj1 (progs_ok narrow widen o e)) vs t items Et) as [c E].
-    pose proof (arr_root_refines narrow widen o data vs rest (vec_prog e vs) t c [] Hb Hd Hok E) as R.
+    destruct (vec_loop narrow widen o e (load_tr e) (elem_prog e) (dok e) (proj1 (progs_ok narrow widen o e)) vs t items
+                (dok_vec e vs (or_intror Hok)) Et) as [c E].
+    assert (HG' : guard (each_free_areqs (vec_prog e vs)) (MArr vs)).
+    { destruct HG as [HG | HG]; [left | right; exact HG]. unfold MpLoadModel.vec_prog. apply vec_body_free.
+      exact (proj1 (progs_each_free o e HG)). }
+    pose proof (arr_root_refines narrow widen o data vs rest (vec_prog e vs) t c [] Hb Hd Hok HG' E) as R.
+    split; [exact R|]. unfold load_arr. rewrite R. reflexivity.
+  Qed.
+
+  (* a fixed-size array at the root: an error-free load (the counts agree) is the load of a sequence container *)
+  Theorem load_fixed_on_model data vs rest n e toks r :
+    bytes data -> decode data = Some (MArr vs, rest) -> doc_ok (MArr vs) = true ->
+    (map_free (SArr n e) = true \/ keys_refl (MArr vs) = true) ->
+    load_tr (SArr n e) (MArr vs) = (toks, r) -> no_err r ->
+    run_arr_root narrow widen o data (vec_prog e vs) = Done toks rest false /\
+    load_arr narrow widen o data (vec_prog e vs) = MpScopeModel.LOk toks rest.
+  Proof.
+    intros Hb Hd Hok HG H Hn.
+    exact (load_vec_on_model data vs rest e toks r Hb Hd Hok HG (arr_as_vec narrow widen o n e (MArr vs) toks r H Hn) Hn).
+  Qed.
+
+  (* std::vector<bool> at the root *)
+  Theorem load_vb_on_model data vs rest toks r :
+    bytes data -> decode data = Some (MArr vs, rest) -> doc_ok (MArr vs) = true ->
+    load_tr SVecBool (MArr vs) = (toks, r) -> no_err r ->
+    run_arr_root narrow widen o data (mk_areqs (vec_body bool_prog vs)) = Done toks rest false /\
+    load_arr narrow widen o data (mk_areqs (vec_body bool_prog vs)) = MpScopeModel.LOk toks rest.
+  Proof.
+    intros Hb Hd Hok H Hn. destruct (vb_as_vec narrow widen o (MArr vs) toks r H Hn) as [r' [H' Hn']]. unfold vec_tr in H'.
+    destruct (elems_tr SBool _ vs) as [[t items] err] eqn:Et. destruct err as [err|].
+    { injection H' as _ <-. destruct Hn'. }
+    injection H' as <- _.
+    destruct (vec_loop narrow widen o SBool _ bool_prog (any) (bool_elem narrow widen o) vs t items (any_all vs) Et) as [c E].
+    pose proof (arr_root_refines narrow widen o data vs rest (mk_areqs (vec_body bool_prog vs)) t c [] Hb Hd Hok
+                  (or_introl (vec_body_free bool_prog (fun _ => eq_refl) vs)) E) as R.
     split; [exact R|]. unfold load_arr. rewrite R. reflexivity.
   Qed.
 
@@ -438,7 +914,19 @@ Section Transport.
   Proof.
     intros Hs Hw Hd Hsv Hb. destruct (load_save_spec narrow widen o _ _ Hs Hw Hd) as [toks E].
     exists toks. split; [exact E|]. rewrite abs_obj in *.
-    exact (load_class_on_model b (map absp kvs) [] ms toks _ Hb (save_decodes _ b Hw Hsv) Hd E I).
+    exact (load_class_on_model b (map absp kvs) [] ms toks _ Hb (save_decodes _ b Hw Hsv) Hd (or_intror (has_shape_keys_refl _ _ Hs)) E I).
+  Qed.
+
+  Theorem load_save_map_on_model kvs ks e b :
+    has_shape (TObj kvs) (SMap ks e) = true -> wf_tv (TObj kvs) -> doc_ok (abs (TObj kvs)) = true ->
+    save (TObj kvs) = Some b -> bytes b ->
+    exists toks, load_tr (SMap ks e) (abs (TObj kvs)) = (toks, LOk (TObj kvs)) /\
+      run_obj_root narrow widen o b (map_prog ks e (map absp kvs)) = Done toks [] false /\
+      load_obj narrow widen o b (map_prog ks e (map absp kvs)) = MpScopeModel.LOk toks [].
+  Proof.
+    intros Hs Hw Hd Hsv Hb. destruct (load_save_spec narrow widen o _ _ Hs Hw Hd) as [toks E].
+    exists toks. split; [exact E|]. pose proof (has_shape_keys_refl _ _ Hs) as Hrf. rewrite abs_obj in *.
+    exact (load_map_on_model b (map absp kvs) [] ks e toks _ Hb (save_decodes _ b Hw Hsv) Hd Hrf E I).
   Qed.
 
   Theorem load_save_vec_on_model l e b :
@@ -450,7 +938,7 @@ Section Transport.
   Proof.
     intros Hs Hw Hd Hsv Hb. destruct (load_save_spec narrow widen o _ _ Hs Hw Hd) as [toks E].
     exists toks. split; [exact E|].
-    exact (load_vec_on_model b (map abs l) [] e toks _ Hb (save_decodes _ b Hw Hsv) Hd E I).
+    exact (load_vec_on_model b (map abs l) [] e toks _ Hb (save_decodes _ b Hw Hsv) Hd (or_intror (has_shape_keys_refl _ _ Hs)) E I).
   Qed.
 
   (* ---------- the result depends on the document only through the lookups of the member names ---------- *)
@@ -491,16 +979,6 @@ Proof.
   inversion Hs as [|? ? Hs0 Hs']; subst. cbn [lookup] in H. cbn [fst] in Hs0.
   destruct (keyden k) as [k0|] eqn:Ek; [|congruence]. destruct (key_eq k0 q) eqn:Eq; [discriminate H|].
   destruct Hin as [<- | Hin]; [cbn [fst] in Hk; congruence | eapply IH; eassumption].
-Qed.
-
-Lemma lookup_some_in q l v : lookup q l = Some v -> exists k kk, In (k, v) l /\ keyden k = Some kk /\ key_eq kk q = true.
-Proof.
-  induction l as [|[k x] l IH]; intros H; [discriminate H|]. cbn [lookup] in H.
-  destruct (keyden k) as [k0|] eqn:Ek.
-  - destruct (key_eq k0 q) eqn:Eq.
-    + injection H as <-. exists k, k0. split; [left; reflexivity | split; assumption].
-    + destruct (IH H) as [k' [kk [Hin Hr]]]. exists k', kk. split; [right; exact Hin | exact Hr].
-  - destruct (IH H) as [k' [kk [Hin Hr]]]. exists k', kk. split; [right; exact Hin | exact Hr].
 Qed.
 
 (* with pairwise different keys the value found under a key does not depend on the order of the members *)
@@ -576,6 +1054,41 @@ Lemma ex_tree_loads2 : load_bytes no_narrow id_widen skip_all ex_shape ex_bytes2
   LOk (TObj [(TStr [0x69; 0x64], TInt IS32 5); (TStr [0x74], TArr []); (TStr [0x70], TArr []); (TStr [0x67], TArr []); (TStr [0x7A], TNil)]).
 Proof. vm_compute. reflexivity. Qed.
 
+(* class { m : std::map<int8_t, vector<string>>; n : std::map<std::string, int32_t> } *)
+Definition ex_map_tree : tv :=
+  TObj [(TStr [0x6D], TObj [(TInt IS8 (-3), TArr [TStr [0x61]]); (TInt IS8 5, TArr [])]);
+        (TStr [0x6E], TObj [(TStr [], TInt IS32 1); (TStr [0x61], TInt IS32 (-2)); (TStr [0x61; 0x62], TInt IS32 3)])].
+Definition ex_map_shape : shape := SClass [([0x6D], SMap (KSInt IS8) (SVec SStr)); ([0x6E], SMap KSStr (SInt IS32))].
+Definition ex_map_bytes : list N :=
+  [0x82; 0xA1; 0x6D; 0x82; 0xFD; 0x91; 0xA1; 0x61; 0x05; 0x90; 0xA1; 0x6E; 0x83; 0xA0; 0x01; 0xA1; 0x61; 0xFE; 0xA2; 0x61; 0x62; 0x03].
+Lemma ex_map_shape_ok : has_shape ex_map_tree ex_map_shape = true. Proof. vm_compute. reflexivity. Qed.
+Lemma ex_map_wf : wf_tv ex_map_tree. Proof. vm_compute. repeat split. Qed.
+Lemma ex_map_keys : doc_ok (abs ex_map_tree) = true. Proof. vm_compute. reflexivity. Qed.
+Lemma ex_map_save : save ex_map_tree = Some ex_map_bytes. Proof. vm_compute. reflexivity. Qed.
+Lemma ex_map_loads : load_bytes no_narrow id_widen skip_all ex_map_shape ex_map_bytes = LOk ex_map_tree.
+Proof. exact (load_save no_narrow id_widen skip_all ex_map_tree ex_map_shape ex_map_bytes ex_map_shape_ok ex_map_wf ex_map_keys ex_map_save). Qed.
+(* { "n": {"ab":3, "":1}, "m": {5:[], 300:["x"], -3:["a"]} }: the keys arrive in another order (the maps sort them),
+   300 does not fit int8_t: passed over under the Skip policy, an Overflow error under Throw *)
+Definition ex_map_bytes2 : list N :=
+  [0x82; 0xA1; 0x6E; 0x82; 0xA2; 0x61; 0x62; 0x03; 0xA0; 0x01; 0xA1; 0x6D; 0x83; 0x05; 0x90; 0xCD; 0x01; 0x2C; 0x91; 0xA1; 0x78; 0xFD; 0x91; 0xA1; 0x61].
+Lemma ex_map_loads2 : load_bytes no_narrow id_widen skip_all ex_map_shape ex_map_bytes2 =
+  LOk (TObj [(TStr [0x6D], TObj [(TInt IS8 (-3), TArr [TStr [0x61]]); (TInt IS8 5, TArr [])]);
+             (TStr [0x6E], TObj [(TStr [], TInt IS32 1); (TStr [0x61; 0x62], TInt IS32 3)])]) /\
+  load_bytes no_narrow id_widen (mkOpts PThrow PThrow) ex_map_shape ex_map_bytes2 = LErr (SE EOverflow).
+Proof. split; vm_compute; reflexivity. Qed.
+
+(* class { a : std::array<int16_t, 3>; b : std::vector<bool> } *)
+Definition ex_fix_shape : shape := SClass [([0x61], SArr 3 (SInt IS16)); ([0x62], SVecBool)].
+(* { "a": [1, "x", 3], "b": [true, "x", false, nil] }: under Skip the element that does not load keeps its value (a) /
+   repeats the previous element (b); [1, 2] into the array is OutOfRange whatever the policy *)
+Definition ex_fix_bytes : list N := [0x82; 0xA1; 0x61; 0x93; 0x01; 0xA1; 0x78; 0x03; 0xA1; 0x62; 0x94; 0xC3; 0xA1; 0x78; 0xC2; 0xC0].
+Definition ex_fix_bytes2 : list N := [0x81; 0xA1; 0x61; 0x92; 0x01; 0x02].
+Lemma ex_fix_loads :
+  load_bytes no_narrow id_widen skip_all ex_fix_shape ex_fix_bytes =
+    LOk (TObj [(TStr [0x61], TArr [TInt IS16 1; TInt IS16 0; TInt IS16 3]); (TStr [0x62], TArr [TBool true; TBool true; TBool false; TBool false])]) /\
+  load_bytes no_narrow id_widen skip_all ex_fix_shape ex_fix_bytes2 = LErr SERange.
+Proof. split; vm_compute; reflexivity. Qed.
+
 (* ---------- the tokens determine the loaded value ---------- *)
 Section ReadOff.
   Variable narrow : N -> option N.
@@ -586,8 +1099,10 @@ Section ReadOff.
   Definition reads (rd : list tok -> option (lres * list tok)) (ld : mpv -> list tok * lres) : Prop :=
     forall v toks r rest, ld v = (toks, r) -> no_err r -> rd (toks ++ rest) = Some (r, rest).
 
-  Definition read_ok (s : shape) : Prop :=
+  Definition read_ok' (s : shape) : Prop :=
     reads (read_off s) (load_tr s) /\ forall rest, read_off s (absent_toks s ++ rest) = Some (LNot, rest).
+  (* for shapes without std::map (the keys of a map are not among the tokens) *)
+  Definition read_ok (s : shape) : Prop := map_free s = true -> read_ok' s.
 
   Lemma elems_len e ld : forall vs t items err, elems_tr e ld vs = (t, items, err) -> (1 <= length t)%nat.
   Proof.
@@ -644,7 +1159,7 @@ Section ReadOff.
   Lemma bytes_read bs rest : read_bytes (map KByte bs ++ KClose :: rest) = Some (bs, rest).
   Proof. induction bs as [|b bs IH]; [reflexivity|]. cbn [map app read_bytes]. rewrite IH. reflexivity. Qed.
 
-  Lemma members_read kvs ms : Forall (fun m => read_ok (snd m)) ms ->
+  Lemma members_read kvs ms : Forall (fun m => read_ok' (snd m)) ms ->
     forall t fields, members_tr load_tr kvs ms = (t, fields, None) ->
     forall rest, read_members read_off ms (t ++ rest) = Some (fields, rest).
   Proof.
@@ -661,17 +1176,42 @@ Section ReadOff.
       rewrite E0, (IH t' f' Hrest rest). reflexivity.
   Qed.
 
+  Lemma bools_read : forall vs prev t items, bools_tr (scalar_tr narrow widen o SBool (TgInt (mkIty false 1))) prev vs = (t, items, None) ->
+    forall fuel rest, (length vs < fuel)%nat -> read_bools prev fuel (t ++ KClose :: rest) = Some (items, rest).
+  Proof.
+    induction vs as [|v vs IH]; intros prev t items H fuel rest Hf; (destruct fuel as [|f]; [cbn [length] in Hf; lia|]); cbn [bools_tr] in H.
+    - injection H as <- <-. reflexivity.
+    - unfold scalar_tr in H. destruct (typed_spec narrow widen o (TgInt (mkIty false 1)) v) as [x| |e0]; [| |discriminate H].
+      + destruct (bools_tr _ (match of_value SBool x with TBool b => b | _ => prev end) vs) as [[t' i'] e'] eqn:Eb.
+        injection H as <- <- ->. cbn [app read_bools].
+        rewrite (IH _ t' i' Eb f rest) by (cbn [length] in Hf; lia). reflexivity.
+      + destruct (bools_tr _ prev vs) as [[t' i'] e'] eqn:Eb.
+        injection H as <- <- ->. cbn [app read_bools].
+        rewrite (IH _ t' i' Eb f rest) by (cbn [length] in Hf; lia). reflexivity.
+  Qed.
+
+  Lemma bools_len ld : forall vs prev t items, bools_tr ld prev vs = (t, items, None) -> (length vs < length t + 1)%nat.
+  Proof.
+    induction vs as [|v vs IH]; intros prev t items H; cbn [bools_tr] in H.
+    - injection H as <- _. cbn. lia.
+    - destruct (ld v) as [t0 r]. destruct r as [x| |e0]; [| |discriminate H].
+      + destruct (bools_tr ld (match x with TBool b => b | _ => prev end) vs) as [[t' i'] e'] eqn:E'. injection H as <- _ ->.
+        specialize (IH _ _ _ E'). cbn [length]. rewrite app_length. lia.
+      + destruct (bools_tr ld prev vs) as [[t' i'] e'] eqn:E'. injection H as <- _ ->.
+        specialize (IH _ _ _ E'). cbn [length]. rewrite app_length. lia.
+  Qed.
+
   Theorem read_off_ok : forall s, read_ok s.
   Proof.
     apply shape_ind'.
-    - intros s Hs.
+    - intros s Hs _.
       assert (Ht : exists t, (forall v, load_tr s v = scalar_tr narrow widen o s t v) /\ (forall x, read_off s x = read_scalar s x) /\ absent_toks s = [KFalse])
         by (destruct s; try destruct Hs; eexists; repeat split).
       destruct Ht as [t [Hl [Hr Ha]]]. split.
       + intros v toks r rest H Hn. rewrite Hl in H. rewrite Hr. exact (scalar_reads s t v toks r rest H Hn).
       + intros rest. rewrite Ha, Hr. reflexivity.
     - (* byte container *)
-      split; [|intros rest; reflexivity].
+      intros _. split; [|intros rest; reflexivity].
       intros v toks r rest H Hn. cbn [MpLoadModel.load_tr] in H.
       assert (Hfb : forall t0 r0, vec_tr o (SInt IU8) (scalar_tr narrow widen o (SInt IU8) (TgInt (mkIty false 8))) (fun items => TBytes (map byte_of items)) v = (t0, r0) ->
                 toks = KNone :: t0 -> r = r0 -> read_off SBytes (toks ++ rest) = Some (r, rest)).
@@ -688,12 +1228,15 @@ Section ReadOff.
         destruct (vec_tr o (SInt IU8) _ _ v) as [t0 r0] eqn:Ev. injection H' as <- <-.
         eapply Hfb; reflexivity.
     - (* sequence container *)
-      intros e [IHe _]. split; [|intros rest; reflexivity].
+      intros e IH Hf. destruct (IH Hf) as [IHe _]. split; [|intros rest; reflexivity].
       intros v toks r rest H Hn. cbn [MpLoadModel.load_tr] in H.
       destruct (vec_read e (read_off e) _ _ v toks r rest IHe H Hn) as [[t [items [-> [-> Hre]]]] | [-> ->]]; [|reflexivity].
       cbn [app read_off]. rewrite Hre by (rewrite app_length; lia). reflexivity.
     - (* class *)
-      intros ms Hms. split; [|intros rest; reflexivity].
+      intros ms Hms0 Hf. rewrite map_free_class, forallb_forall in Hf.
+      assert (Hms : Forall (fun m => read_ok' (snd m)) ms).
+      { rewrite Forall_forall in Hms0. apply Forall_forall. intros m Hin. exact (Hms0 m Hin (Hf m Hin)). }
+      split; [|intros rest; reflexivity].
       intros v toks r rest H Hn. cbn [MpLoadModel.load_tr] in H.
       assert (Hnc : forall w, no_container o w = (toks, r) -> read_off (SClass ms) (toks ++ rest) = Some (r, rest)).
       { intros w Hw. unfold no_container in Hw. destruct w; destruct (o_mismatch o); injection Hw as <- <-; try (exfalso; exact Hn); reflexivity. }
@@ -702,13 +1245,30 @@ Section ReadOff.
       { injection H as _ <-. destruct Hn. }
       injection H as <- <-. cbn [app read_off]. rewrite <- app_assoc. cbn [app].
       rewrite (members_read l ms Hms t fields Et). reflexivity.
+    - intros ks e _ Hf. discriminate Hf.
+    - (* fixed-size array *)
+      intros n e IH Hf. destruct (IH Hf) as [IHe _]. split; [|intros rest; reflexivity].
+      intros v toks r rest H Hn. pose proof (arr_as_vec narrow widen o n e v toks r H Hn) as H'.
+      destruct (vec_read e (read_off e) _ _ v toks r rest IHe H' Hn) as [[t [items [-> [-> Hre]]]] | [-> ->]]; [|reflexivity].
+      cbn [app read_off]. rewrite Hre by (rewrite app_length; lia). reflexivity.
+    - (* std::vector<bool> *)
+      intros _. split; [|intros rest; reflexivity].
+      intros v toks r rest H Hn. cbn [MpLoadModel.load_tr] in H.
+      assert (Hnc : forall w, no_container o w = (toks, r) -> read_off SVecBool (toks ++ rest) = Some (r, rest)).
+      { intros w Hw. unfold no_container in Hw. destruct w; destruct (o_mismatch o); injection Hw as <- <-; try (exfalso; exact Hn); reflexivity. }
+      destruct v; try (eapply Hnc; exact H).
+      destruct (bools_tr _ false l) as [[t items] err] eqn:Et. destruct err as [err|].
+      { injection H as _ <-. destruct Hn. }
+      injection H as <- <-. cbn [app read_off]. rewrite <- app_assoc. cbn [app].
+      rewrite (bools_read l false t items Et) by (pose proof (bools_len _ _ _ _ _ Et); rewrite app_length; cbn [length]; lia).
+      reflexivity.
   Qed.
 
   (* what the program's answers say is what load_spec says *)
-  Corollary read_off_load s v : no_err (load_spec narrow widen o s v) ->
+  Corollary read_off_load s v : map_free s = true -> no_err (load_spec narrow widen o s v) ->
     read_off s (load_toks narrow widen o s v) = Some (load_spec narrow widen o s v, []).
   Proof.
-    intros Hn. unfold load_spec, load_toks in *. destruct (load_tr s v) as [toks r] eqn:E. cbn [fst snd] in *.
-    pose proof (proj1 (read_off_ok s) v toks r [] E Hn) as R. rewrite app_nil_r in R. exact R.
+    intros Hf Hn. unfold load_spec, load_toks in *. destruct (load_tr s v) as [toks r] eqn:E. cbn [fst snd] in *.
+    pose proof (proj1 (read_off_ok s Hf) v toks r [] E Hn) as R. rewrite app_nil_r in R. exact R.
   Qed.
 End ReadOff.
